@@ -599,20 +599,17 @@ pub fn post_step(w: &mut World, snapshot: &[hyperdriver::verif_hooks::PoolEntry]
             w.violate("C15", "idle-list-exceeds-max-idle-per-host", format!("pool retains {} idle connections for {} with max_idle_per_host={max}", e.idle, e.key));
         }
     }
-    // boundary observation (no hook): connections nobody holds and nobody waits for are retained by the pool
-    // (worlds with hundreds of origins exist for the key table only: the per-origin boundary count is skipped there)
-    let origins: Vec<String> = if w.ambiguous_spelling || w.cfg.origins.len() > 100 { vec![] } else { w.cfg.origins.iter().map(|o| origin_of(&o.uri.parse().unwrap())).collect() };
-    for o in origins {
-        if waiting_reqs(w, &o).next().is_some() {
-            continue;
+    // boundary observation (no hook): connections nobody holds and nobody waits for are retained by the pool.
+    // Grouped by the origin of the connections that exist (worlds with a thousand origins stay cheap).
+    if !w.ambiguous_spelling {
+        let mut retained: std::collections::BTreeMap<String, usize> = Default::default();
+        for c in w.conns.iter().filter(|c| c.alive() && c.holders == 0 && c.is_open() && !c.h2 && c.to_idle_at_ready && c.ready_reported_step.is_some() && c.ready_reported_step >= c.released_step) {
+            *retained.entry(c.origin.clone()).or_default() += 1;
         }
-        let retained = w
-            .conns
-            .iter()
-            .filter(|c| c.origin == o && c.alive() && c.holders == 0 && c.is_open() && !c.h2 && c.to_idle_at_ready && c.ready_reported_step.is_some() && c.ready_reported_step >= c.released_step)
-            .count();
-        if retained > max {
-            w.violate("C15", "retained-idle-connections-exceed-max(boundary)", format!("{retained} released, ready, open HTTP/1 connections to {o} are kept alive with max_idle_per_host={max}"));
+        for (o, n) in retained {
+            if n > max && waiting_reqs(w, &o).next().is_none() {
+                w.violate("C15", "retained-idle-connections-exceed-max(boundary)", format!("{n} released, ready, open HTTP/1 connections to {o} are kept alive with max_idle_per_host={max}"));
+            }
         }
     }
     // C14(a): a freed HTTP/1 connection sits in the pool's idle list although requests that were waiting when it
